@@ -312,7 +312,10 @@ func mixedRun(w *lib.Writer, rnd *lib.Rand, scratch string, cacheSize int) {
 // compaction (Compact(0) or Compact(far above)) is issued inside the retry window; further writes follow. After
 // the retry queue has drained and a sentinel write per client has arrived, list@R0 + events must be the final list.
 // The slots are not known from the responses here: the case (KLf) is evaluated by the oracle only.
-func faultRun(w *lib.Writer, rnd *lib.Rand, scratch string, verb int, applied bool, compactBig bool) {
+// second: 0 = no further fault; 1 = the asynchronous repair commit for that write is answered "uncertain" too and
+// does NOT land; 2 = the repair commit fails with a definite error (then no compaction is placed in the window:
+// the commit that is hit must be the repair's).
+func faultRun(w *lib.Writer, rnd *lib.Rand, scratch string, verb int, applied bool, compactBig bool, second int) {
 	// retry 120 ms after the uncertain answer (checked every 10 ms): wide enough to place a compaction inside the
 	// window on a loaded machine, short enough to wait for
 	backend.VerifSetIntervals(120*time.Millisecond, 10*time.Millisecond)
@@ -325,10 +328,23 @@ func faultRun(w *lib.Writer, rnd *lib.Rand, scratch string, verb int, applied bo
 	defer closer()
 	var armed int32
 	var fired int32
+	var armed2, fired2 int32
+	mainGID := lib.GoID()
 	wrap := &lib.Wrap{KvStorage: inner, CommitFault: func() (error, bool) {
 		if atomic.CompareAndSwapInt32(&armed, 1, 0) {
 			atomic.AddInt32(&fired, 1)
+			if second != 0 {
+				atomic.StoreInt32(&armed2, 1)
+			}
 			return storage.NewErrUncertainResult(errors.New("injected: answer lost")), applied
+		}
+		// the next commit that is not issued by the driver's own goroutine is the repair rewrite of the retry loop
+		if atomic.LoadInt32(&armed2) == 1 && lib.GoID() != mainGID && atomic.CompareAndSwapInt32(&armed2, 1, 0) {
+			atomic.AddInt32(&fired2, 1)
+			if second == 1 {
+				return storage.NewErrUncertainResult(errors.New("injected: answer of the repair lost, not applied")), false
+			}
+			return errors.New("injected: storage error on the repair commit"), false
 		}
 		return nil, false
 	}}
@@ -340,6 +356,9 @@ func faultRun(w *lib.Writer, rnd *lib.Rand, scratch string, verb int, applied bo
 	outcomes := map[string]bool{"engine=memkv": true, "fault": true,
 		fmt.Sprintf("uncertain-%s-applied=%v", []string{"create", "update", "delete"}[verb], applied): true,
 		fmt.Sprintf("compact-big=%v", compactBig):                                               true}
+	if second != 0 {
+		outcomes[fmt.Sprintf("second-fault-on-repair=%s", []string{"", "uncertain-not-applied", "definite-error"}[second])] = true
+	}
 	ctx := context.Background()
 	fail := ""
 	// quiet: retry queue empty and the committed revision no longer moving
@@ -417,8 +436,10 @@ func faultRun(w *lib.Writer, rnd *lib.Rand, scratch string, verb int, applied bo
 	if compactBig {
 		crev = b.GetCurrentRevision() + 1000
 	}
-	if _, err := b.Compact(ctx, crev); err == nil {
-		outcomes["compacted-in-retry-window"] = true
+	if second == 0 {
+		if _, err := b.Compact(ctx, crev); err == nil {
+			outcomes["compacted-in-retry-window"] = true
+		}
 	}
 	// other clients go on writing
 	for i := 0; i < rnd.Intn(4); i++ {
@@ -434,6 +455,9 @@ func faultRun(w *lib.Writer, rnd *lib.Rand, scratch string, verb int, applied bo
 	}
 	if !quiet() && fail == "" {
 		fail = fmt.Sprintf("the retry queue did not drain within 20s (size %d)", backend.VerifRetryQueueSize(b))
+	}
+	if second != 0 && atomic.LoadInt32(&fired2) == 1 {
+		outcomes["second-fault-injected"] = true
 	}
 	if rnd.Bool() {
 		b.Compact(ctx, 0)
@@ -466,6 +490,7 @@ func faultRun(w *lib.Writer, rnd *lib.Rand, scratch string, verb int, applied bo
 			Coq: lib.App("KLf", lib.Bytes(x.P), lib.N(x.R0), coqStore(x.kv0), lib.List(es), lib.N(Rf), coqStore(kvf)),
 			JSON: map[string]interface{}{"prefix": string(x.P), "initial_revision": c0, "R0": x.R0, "first_list_size": len(x.kv0),
 				"uncertain_op": []string{"create", "update", "delete"}[verb], "applied": applied, "compact_far_above": compactBig,
+				"second_fault_on_repair": []string{"none", "uncertain, not applied", "definite error"}[second],
 				"event_revisions": hs, "final_revision": Rf, "final_list_size": len(kvf), "watch_refused": x.werr != nil},
 			Trivial: x.werr != nil}
 		for k := range outcomes {
@@ -478,5 +503,211 @@ func faultRun(w *lib.Writer, rnd *lib.Rand, scratch string, verb int, applied bo
 		if fail != "" && i == 0 {
 			w.Fail(lib.ImplFailure{CaseID: w.Len() - 1, What: fail, Case: c.JSON})
 		}
+	}
+}
+
+// ---------------------------------------------------------------- the partitioned list-then-watch path
+
+type streamRead struct {
+	rev     uint64
+	kvs     []kv
+	errText string // Err of the end marker ("" = served)
+	ended   bool   // an end marker (More=false) was received before the channel closed
+}
+
+// streamList reads one advertised partition [start, end) (internal keys) at revision rev through ListByStream.
+func streamList(b backend.Backend, start, end []byte, rev uint64) (streamRead, error) {
+	out := streamRead{rev: rev}
+	ch, err := b.ListByStream(context.Background(), start, end, rev)
+	if err != nil {
+		return out, err
+	}
+	timeout := time.After(20 * time.Second)
+	for {
+		select {
+		case m, ok := <-ch:
+			if !ok {
+				return out, nil
+			}
+			if m == nil || m.RangeResponse == nil {
+				continue
+			}
+			for _, x := range m.RangeResponse.Kvs {
+				out.kvs = append(out.kvs, kv{x.Key, x.Value, x.Revision})
+			}
+			if m.Err != "" {
+				out.errText = m.Err
+			}
+			if !m.RangeResponse.More {
+				out.ended = true
+			}
+		case <-timeout:
+			return out, fmt.Errorf("stream did not end within 20s")
+		}
+	}
+}
+
+// partitionedRun: the client protocol of a partitioned (streamed) list-then-watch:
+//   GetPartitions(P) -> header revision R, advertised borders;  Watch(P, R+1);  ListByStream(border i, border i+1, R).
+// The end marker of every stream carries the scan's error: a read that was refused (here: a compaction above R
+// recorded between GetPartitions and the streaming) must be reported there, and the client then starts over.
+// compactBetween = false is the plain path. The observation is the read the client finally accepted (R, kvs), the
+// events of the watch that belongs to it, later range reads; whether a refusal was reported is in the case record.
+func partitionedRun(w *lib.Writer, rnd *lib.Rand, scratch string, compactBetween bool, split bool) {
+	inner, closer, err := lib.NewEngine(lib.EngMem, scratch)
+	if err != nil {
+		w.Fail(lib.ImplFailure{CaseID: -1, What: "engine: " + err.Error()})
+		return
+	}
+	defer closer()
+	var store storage.KvStorage = inner
+	if split {
+		// two advertised partitions, cut at an index record in the middle of the prefix
+		store = &lib.Wrap{KvStorage: inner, Partitions: func(start, end []byte) []storage.Partition {
+			mid := append(append([]byte{}, start[:len(start)-9]...), []byte("m$\x00\x00\x00\x00\x00\x00\x00\x00")...)
+			if bytes.Compare(start, mid) < 0 && bytes.Compare(mid, end) < 0 {
+				return []storage.Partition{{Start: start, End: mid}, {Start: mid, End: end}}
+			}
+			return []storage.Partition{{Start: start, End: end}}
+		}}
+	}
+	c0 := uint64(100 + 100*rnd.Intn(3))
+	b := backend.NewBackend(store, backend.Config{Prefix: "/r", Identity: "c06", WatchCacheSize: 0}, &lib.NopMetrics{})
+	b.SetCurrentRevision(c0)
+	defer retire()
+	P := []byte("/r/a/")
+	outcomes := map[string]bool{"engine=memkv": true, "partitioned-stream": true, fmt.Sprintf("compact-between=%v", compactBetween): true,
+		fmt.Sprintf("split=%v", split): true}
+	var slots []slot
+	nops := uint64(0)
+	fail := ""
+	kn := &known{m: map[string]uint64{}}
+	caughtUp := func() {
+		want := c0 + nops
+		if !waitUntil(20*time.Second, func() bool { return b.GetCurrentRevision() >= want }) && fail == "" {
+			fail = fmt.Sprintf("committed revision %d never reached %d", b.GetCurrentRevision(), want)
+		}
+	}
+	record := func(s slot, oc string) {
+		nops++
+		outcomes[oc] = true
+		if s.valid {
+			slots = append(slots, s)
+		}
+		caughtUp()
+	}
+	fresh := 0
+	create := func() {
+		fresh++
+		k := []byte(fmt.Sprintf("/r/a/%c%d", "knz"[fresh%3], fresh)) // on both sides of the cut
+		v := []byte(fmt.Sprintf("p%d", fresh))
+		resp, err := b.Create(context.Background(), &proto.CreateRequest{Key: k, Value: v})
+		if err != nil || !resp.Succeeded {
+			if fail == "" {
+				fail = fmt.Sprintf("create %q failed: %v", k, err)
+			}
+			record(slot{}, "create-failed")
+			return
+		}
+		record(slot{rev: resp.Header.Revision, valid: true, verb: 0, key: k, val: v}, "create-ok")
+	}
+	for i := 0; i < 3+rnd.Intn(3); i++ {
+		create()
+	}
+	for i := 0; i < rnd.Intn(3); i++ {
+		s, oc := doOp(b, rnd, kn, "i", i)
+		record(s, oc)
+	}
+	var x *lw
+	refusals := 0
+	var R uint64
+	var kv0 []kv
+	for attempt := 0; attempt < 4; attempt++ {
+		pr, err := b.GetPartitions(context.Background(), &proto.ListPartitionRequest{Key: P, End: backend.PrefixEnd(P)})
+		if err != nil || pr.Header == nil || len(pr.PartitionKeys) < 2 {
+			w.Fail(lib.ImplFailure{CaseID: -1, What: fmt.Sprintf("GetPartitions failed: %v", err)})
+			return
+		}
+		R = pr.Header.Revision
+		outcomes[fmt.Sprintf("advertised-partitions=%d", len(pr.PartitionKeys)-1)] = true
+		// the watch belonging to this read
+		x = &lw{P: P, R0: R, closed: make(chan struct{})}
+		ctx, cancel := context.WithCancel(context.Background())
+		x.cancel = cancel
+		x.ch, x.werr = b.Watch(ctx, string(P), R+1)
+		if x.werr == nil {
+			go func(x *lw) {
+				for batch := range x.ch {
+					x.mu.Lock()
+					for _, e := range batch {
+						x.evs = append(x.evs, ev{int(e.Type), e.Revision, e.Kv.Key, e.Kv.Value, e.Kv.Revision})
+					}
+					x.mu.Unlock()
+				}
+				close(x.closed)
+			}(x)
+		}
+		if compactBetween && attempt == 0 {
+			// other clients write, and a compaction "up to now" (above R) is recorded before the streaming starts
+			create()
+			create()
+			if _, err := b.Compact(context.Background(), 0); err == nil {
+				outcomes["compacted-above-R-before-streaming"] = true
+			}
+		}
+		kv0 = nil
+		refused := false
+		for i := 0; i+1 < len(pr.PartitionKeys); i++ {
+			sr, err := streamList(b, pr.PartitionKeys[i], pr.PartitionKeys[i+1], R)
+			if err != nil {
+				w.Fail(lib.ImplFailure{CaseID: -1, What: "ListByStream: " + err.Error()})
+				x.stop()
+				return
+			}
+			if !sr.ended {
+				outcomes["stream-without-end-marker"] = true
+				refused = true
+			}
+			if sr.errText != "" {
+				refused = true
+			}
+			kv0 = append(kv0, sr.kvs...)
+		}
+		if !refused {
+			break
+		}
+		// the end marker said the read was not served: drop the watch and start over
+		refusals++
+		outcomes["stream-refused-then-relisted"] = true
+		x.stop()
+		x = nil
+	}
+	if x == nil {
+		w.Fail(lib.ImplFailure{CaseID: -1, What: "the streamed read was refused four times in a row"})
+		return
+	}
+	x.kv0 = kv0
+	// further writes
+	for i := 0; i < 2+rnd.Intn(4); i++ {
+		if rnd.Bool() {
+			create()
+		} else {
+			s, oc := doOp(b, rnd, kn, "z", i)
+			record(s, oc)
+		}
+	}
+	sort.Slice(slots, func(i, j int) bool { return slots[i].rev < slots[j].rev })
+	if !x.waitRev(lastMatching(slots, x), 15*time.Second) {
+		outcomes["events-missing-after-15s"] = true
+	}
+	got := x.got()
+	lists := x.listsAt(b, got)
+	x.stop()
+	c := x.caseKLw("list-then-watch/partitioned-stream", slots, got, lists, outcomes,
+		map[string]interface{}{"initial_revision": c0, "compaction_between_getpartitions_and_stream": compactBetween,
+			"end_marker_refusals": refusals, "split_in_two_partitions": split})
+	w.Add(c)
+	if fail != "" {
+		w.Fail(lib.ImplFailure{CaseID: w.Len() - 1, What: fail, Case: c.JSON})
 	}
 }
